@@ -6,7 +6,7 @@ from checks.outparse import parse_raws, parse_views
 
 ID = "C05"
 LEAN_MODULES = ["Econf.Props.C05"]
-THEOREMS = ["Econf.C05_step_inert", "Econf.C05_blank_inert", "Econf.C05_lines_inert"]
+THEOREMS = ["Econf.C05_step_inert", "Econf.C05_blank_inert", "Econf.C05_lines_inert", "Econf.C05_insert_comments"]
 RULE = ("conventional single-line-value documents x random insertion points x comment-line texts over the printable alphabet with "
         "comment characters, delimiters, quotes and brackets over-represented, with and without indentation, all comment sets; the file "
         "is read with and without the inserted lines and the two results are compared; distinct by (document, inserted lines)")
